@@ -241,7 +241,9 @@ func c12RandomCase(rng *rand.Rand) obj {
 	for _, d := range dims {
 		p[d] = valPool[rng.Intn(len(valPool))]
 	}
-	nears := []string{"{{matrix", "{matrix}", "{{ matrixx }}", "{{matrix.}}", "{{matrix .a}}", "{{ matrix.a b }}", "{{Matrix}}", "{{ matrix.a }", "{ {matrix}}", "matrix.a"}
+	nears := []string{"{{matrix", "{matrix}", "{{ matrixx }}", "{{matrix.}}", "{{matrix .a}}", "{{ matrix.a b }}", "{{Matrix}}", "{{ matrix.a }", "{ {matrix}}", "matrix.a",
+		// padded with runes that Unicode calls space but the token grammar does not (\s is [ \t\n\f\r] only)
+		"{{\u00a0matrix.a\u00a0}}", "{{\vmatrix}}", "{{\u0085matrix.b}}", "{{\u3000matrix\u3000}}", "{{\u2003matrix.zz}}"}
 	lits := []string{"x ", "-", " echo ", "/", ":", "=v", "é", "\n"}
 	ws := []string{"", " ", "  ", "\t", " \t ", "\n", "\n  ", "\r\n", "\f"} // "inner whitespace allowed": any whitespace, line breaks included
 	mk := func(class string) obj {
